@@ -352,12 +352,10 @@ pub fn faults_of(sim: &Sim) -> Faults {
             FsOp::Readdir => {
                 f.readdir.insert(p, x.nth);
             }
-            FsOp::Stat => {
-                f.stat.insert(p);
-            }
-            FsOp::Realpath => {
-                f.realpath.insert(p);
-            }
+            // A failing stat or realpath does not make a file unreadable: an implementation may report it (always
+            // accepted: see `about_fired`) or work around it (identity by device and inode, d_type from the
+            // listing) - then the complete, correct file set is due, and checked.
+            FsOp::Stat | FsOp::Realpath => {}
             _ => {}
         }
     }
@@ -1006,7 +1004,8 @@ pub fn judge(s: &Scenario, r: &RunResult) -> (Vec<Violation>, Vec<&'static str>)
             // file is parsed and rejected - unless an optional I/O error stopped the compiler before parsing.
             probes.push("planned fault not delivered: the planted syntax error is the expected outcome");
             let rejected_by_parser = errors.iter().any(|d| d.code != "E001");
-            let stopped_by_optional_error = !errors.is_empty() && errors.iter().all(|d| optional(d));
+            // (the statement is silent about link cycles: an I/O error is an acceptable answer to one)
+            let stopped_by_optional_error = !errors.is_empty() && (errors.iter().all(|d| optional(d)) || (exp.loops && errors.iter().all(|d| d.code == "E001")));
             if r.exit == Exit::Code(0) || spawns > 0 || !(rejected_by_parser || stopped_by_optional_error) {
                 vio.push(v("erroneous-program-not-rejected", format!("a listed file has a syntax error, yet exit {:?}, {spawns} generator(s) started, errors {:?}", r.exit, errors.iter().map(|d| format!("{}: {}", d.code, d.message)).collect::<Vec<_>>())));
             }
